@@ -430,6 +430,129 @@ def search_space_not_wider_than_matrix(ctx, rule='rayleigh-ritz-basis-fits-the-m
         raise AnalysisBroken('only %d obligations about the search-space size' % n)
 
 
+def default_sizes_admissible(ctx, rule='constructed-search-space-sizes-admissible'):
+    """The constructor derives the initial, maximal and correction sizes from nev (defaults 2 nev, 10 nev, nev) and clamps them for
+    small matrices.  The iteration needs: initial size >= nev (the Rayleigh-Ritz step must deliver nev pairs: the flags and
+    the accessors take head(nev)), correction size >= 1, initial + correction <= n (the sizes the property quantifies over),
+    maximal size >= initial size.  The member-initialiser expressions and the straight-line clamping member are executed over the
+    integers for every matrix size 2..14 and every documented nev (1..n-1), for the default sizes and for every explicit
+    (initial, maximal) pair with initial + nev <= n: the invariants must hold in each case.  Nothing of the library is run: the
+    fragment is integer assignments and comparisons."""
+    from .xeval import ev, CannotEval
+    bases = [f for f in ctx.F.concrete() if f.cls == 'Spectra::JDSymEigsBase' and f.cfg]
+    recs = sorted(set(f.record for f in bases))
+    if not recs:
+        raise AnalysisBroken('JDSymEigsBase is not instantiated')
+    for rec in recs[:1]:
+        ms = [f for f in bases if f.record == rec]
+        ctors = [f for f in ms if f.d.get('ctor') and len(f.params) == 4 and not any(i['member'] == '<delegating>' for i in f.inits)]
+        deleg = [f for f in ms if f.d.get('ctor') and any(i['member'] == '<delegating>' for i in f.inits)]
+        clamp = [f for f in ms if f.name == 'initialize']
+        if len(ctors) != 1 or not clamp or not deleg:
+            raise AnalysisBroken('%s: constructor / clamping member not identified' % rec)
+        ctor, ini = ctors[0], clamp[0]
+        pn = [ctor.locals[v]['name'] for v in ctor.params]
+        fields = [r for r in ctx.F.records.values() if r['qname'] == rec and not r['dep']][0]['fields']
+        fn_ = {f['name']: f['type'] for f in fields}
+        F_NEV = [k for k in fn_ if 'number_eigenvalues' in k][0]
+        F_INIT = [k for k in fn_ if 'initial_search_space' in k][0]
+        F_MAX = [k for k in fn_ if 'max_search_space' in k][0]
+        F_CORR = [k for k in fn_ if 'correction_size' in k][0]
+        # default arguments of the delegating constructor, as expressions of nev
+        dctor = deleg[0]
+        dini = [i for i in dctor.inits if i['member'] == '<delegating>'][0]
+        dargs = None
+        for y in dctor.walk(dini['expr']):
+            if y['k'] in ('CXXConstructExpr', 'CXXTemporaryObjectExpr') and len(dctor.call_args(y)) == 4:
+                dargs = dctor.call_args(y)
+                break
+        if dargs is None:
+            raise AnalysisBroken('%s: delegating constructor arguments not found' % rec)
+        dnev = dctor.locals[dctor.params[1]]['name']
+
+        def run(n, nev, a_init, a_max):
+            env = {('local', pn[1]): nev, ('local', pn[2]): a_init, ('local', pn[3]): a_max}
+            calls = {}
+            st = {}
+
+            def E(f, node, extra=None):
+                e = dict(env)
+                for k_, v_ in st.items():
+                    e[('field', k_)] = v_
+                if extra:
+                    e.update(extra)
+                cd = {}
+                for x in f.walk(node if isinstance(node, int) else node['id']):
+                    if x['k'] == 'CXXMemberCallExpr' and x.get('callee') in ('rows', 'cols'):
+                        cd[f.s(x)] = (lambda a, n=n: n)
+                return ev(f, node, e, cd)
+            for i in ctor.inits:
+                if i['member'] in fn_ and fn_[i['member']] in ('long', 'Eigen::Index', 'const long', 'int') and i['expr'] >= 0:
+                    st[i['member']] = E(ctor, i['expr'])
+
+            def exec_stmt(f, node):
+                k = node['k']
+                if k == 'CompoundStmt':
+                    for c in f.kids(node):
+                        exec_stmt(f, c)
+                elif k == 'IfStmt':
+                    if E(f, node['cond']):
+                        exec_stmt(f, f.nodes[node['then']])
+                    elif node.get('else', -1) is not None and node.get('else', -1) >= 0:
+                        exec_stmt(f, f.nodes[node['else']])
+                elif k == 'BinaryOperator' and node.get('op') == '=':
+                    l = f.strip(f.nodes[node['c'][0]])
+                    if l['k'] == 'MemberExpr' and l.get('mk') == 'field':
+                        st[l['member']] = E(f, node['c'][1])
+                    else:
+                        raise CannotEval('assignment to ' + f.s(l))
+                elif k in ('NullStmt',):
+                    pass
+                elif k == 'DeclStmt':
+                    for d in node.get('decls', []):
+                        if 'init' in d:
+                            env[('local', f.locals[d['var']]['name'])] = E(f, d['init'])
+                elif k in ('ExprWithCleanups', 'ImplicitCastExpr', 'ParenExpr'):
+                    exec_stmt(f, f.nodes[node['c'][0]])
+                else:
+                    raise CannotEval('statement ' + k)
+            exec_stmt(ini, ini.nodes[ini.d['body']])
+            return st
+        bad = []
+        ncase = 0
+        try:
+            for n in range(2, 15):
+                for nev in range(1, n):
+                    cases = [('default sizes', None, None)]
+                    for ai in range(nev, n - nev + 1):
+                        for am in (ai, n, 10 * nev):
+                            cases.append(('nvec_init %d, nvec_max %d' % (ai, am), ai, am))
+                    for label, ai, am in cases:
+                        if ai is None:
+                            de = {('local', dnev): nev}
+                            ai = ev(dctor, dargs[2], de, {})
+                            am = ev(dctor, dargs[3], de, {})
+                        st = run(n, nev, ai, am)
+                        ncase += 1
+                        I, M_, C = st[F_INIT], st[F_MAX], st[F_CORR]
+                        why = None
+                        if I < nev:
+                            why = 'the initial search space has %d vectors, fewer than nev = %d: the first Rayleigh-Ritz step has %d pairs and head(nev) of the flags / values runs past them' % (I, nev, I)
+                        elif C < 1:
+                            why = 'the correction size is %d' % C
+                        elif I + C > n:
+                            why = 'initial + correction = %d exceeds n' % (I + C)
+                        elif M_ < I:
+                            why = 'the maximal size %d is below the initial size %d' % (M_, I)
+                        if why and len(bad) < 3:
+                            bad.append('n = %d, nev = %d, %s: %s' % (n, nev, label, why))
+        except CannotEval as e:
+            raise AnalysisBroken('%s: constructor sizes outside the evaluable fragment: %s' % (rec, e))
+        ctx.check(not bad, rule, 'JDSymEigsBase/constructor-sizes', ctor.qname,
+                  'for every n in 2..14 and nev in 1..n-1 (%d cases: default and explicit sizes) the constructed sizes satisfy nev <= initial, 1 <= correction, initial + correction <= n, initial <= maximal' % ncase
+                  if not bad else '; '.join(bad))
+
+
 def run(ctx):
     from . import hygiene
     hygiene.noalias_destination_not_in_product(ctx, scope=lambda fn: fn.cls in ('Spectra::SearchSpace', 'Spectra::RitzPairs', 'Spectra::JDSymEigsBase', 'Spectra::DavidsonSymEigsSolver'), min_instances=1)
@@ -439,3 +562,4 @@ def run(ctx):
     status_assigned(ctx)
     basis_orthonormal(ctx)
     search_space_not_wider_than_matrix(ctx)
+    default_sizes_admissible(ctx)
